@@ -26,7 +26,9 @@ var trustedValidation = []string{
 func (t *ValidatorTable) emptyErrsAtom(pa *Path) int {
 	for _, a := range pa.Atoms[pa.PreAt:] {
 		g := t.tag(a.T)
-		if g == "bin:==(len:builtin.len(carried:"+t.ErrsPhi+"),0)" || g == "bin:==(carried:"+t.ErrsPhi+",nil)" {
+		// (errors.Join(errs...) == nil is the same test: only non-nil errors are
+		// ever appended — checked above — and Join is nil iff all operands are)
+		if g == "bin:==(len:builtin.len(carried:"+t.ErrsPhi+"),0)" || g == "bin:==(carried:"+t.ErrsPhi+",nil)" || g == "bin:==(errors.Join(carried:"+t.ErrsPhi+"),nil)" {
 			if a.Pos {
 				return 1
 			}
@@ -69,6 +71,11 @@ func l0(ctx *Ctx, r *Result, rule string, t *ValidatorTable) bool {
 				ok = false
 				r.fail(rule, name+": errs monotone", ip.Atoms[len(ip.Atoms)-1].At, "a possibly-nil error value is appended: "+e.Prop)
 			}
+		}
+		if ip.Stale != "" {
+			bad++
+			ok = false
+			r.fail(rule, name+": errs monotone", ip.Atoms[len(ip.Atoms)-1].At, "the error appended in an iteration is not allocated in that iteration ("+ip.Stale+" exists before it): the same object is appended again and overwritten by later iterations, so earlier violations are lost")
 		}
 		if len(ip.Other) > 0 {
 			bad++
@@ -283,12 +290,9 @@ func entryRule(ctx *Ctx, r *Result, rule string, t *ValidatorTable) bool {
 			continue
 		}
 		n++
-		empty := false
-		for _, a := range pa.Atoms {
-			if g := t.tag(a.T); (g == "bin:==(len:builtin.len(param:"+t.List+"),0)" || g == "bin:==(param:"+t.List+",nil)") && a.Pos {
-				empty = true
-			}
-		}
+		// the path is taken by empty lists only: len(list) == 0 is entailed
+		// (whatever its spelling: == 0, < 1, …), or the list is nil
+		empty := pa.Val("bin:==(len:builtin.len(param:"+t.List+"), 0)") == 1 || pa.Val("bin:==(param:"+t.List+", nil)") == 1
 		ret := ""
 		if len(pa.Rets) == 1 {
 			ret = t.tag(pa.Rets[0])
@@ -1167,6 +1171,8 @@ func checkC04(ctx *Ctx) *Result {
 	patternPredicates(ctx, r, "R4.6")
 	builderPlumbing(ctx, r, "R4.8")
 	configFieldOwnership(ctx, r, "R4.9")
+	// "no malformed pattern": the guards every accepted pattern has passed
+	r.share(checkC13(ctx), map[string]string{"R13.4": "every accepting path of ParsePattern has passed each documented guard (scheme, host alphabet, IDNA profile, IP canonical form, https never with an IP, port range, no default port)"}, nil)
 	for _, f := range sortedKeys(val.Lists) {
 		t := val.Lists[f]
 		for i, ip := range t.Iter {
